@@ -31,7 +31,7 @@ for k in sorted(os.listdir(OUT)):
     for f in ("patch.diff", "equiv.py", "notes.json"):
         if os.path.exists(os.path.join(m, f)):
             shutil.copy(os.path.join(m, f), dst)
-    json.dump({"id": f"{area}-{k}", "round": 2, "base_commit": base, "equivalence_outputs_identical": True,
+    json.dump({"id": f"{area}-{k}", "round": int(os.environ.get("BENIGN_ROUND", "2")), "base_commit": base, "equivalence_outputs_identical": True,
                "origin": "independent sub-agent (given the texts of three properties and a scratch worktree, nothing from /verif); behaviour-"
                          "preserving refactoring; equivalence script re-run on both trees by tools/import_benign2.py (byte-identical output, "
                          f"{a.count(chr(10))} lines) and pinned pytest baseline unchanged ({bl})"}, open(os.path.join(dst, "meta.json"), "w"), indent=1)
